@@ -35,6 +35,7 @@ type monitors struct {
 	storedMeta   map[int64]model.ShardMetadata // shard -> last stored metadata
 	sentTermMax  map[int64]int64              // shard -> highest term ever put on the wire by any coordinator incarnation
 	ntReq        map[string]*proto.NewTermRequest // call id -> request
+	ntPreTerm    map[string]int64                 // call id -> node term before handling it
 	ntResp       map[int64]map[int64]map[string]*proto.EntryId // shard -> term -> node -> head (responses delivered to the coordinator)
 	leadersSeen  map[int64]map[int64]string   // shard -> term -> node observed LEADER
 	nodeTerm     map[string]map[int64]int64   // node -> shard -> last observed term
@@ -57,7 +58,7 @@ type monitors struct {
 
 func newMonitors(c *chaos) *monitors {
 	return &monitors{c: c, storedTerm: map[int64]int64{}, storedMeta: map[int64]model.ShardMetadata{}, sentTermMax: map[int64]int64{},
-		ntReq: map[string]*proto.NewTermRequest{}, ntResp: map[int64]map[int64]map[string]*proto.EntryId{},
+		ntReq: map[string]*proto.NewTermRequest{}, ntPreTerm: map[string]int64{}, ntResp: map[int64]map[int64]map[string]*proto.EntryId{},
 		leadersSeen: map[int64]map[int64]string{}, nodeTerm: map[string]map[int64]int64{}, deleted: map[string]map[int64]bool{}, blReq: map[string]*proto.BecomeLeaderRequest{}, blResp: map[string]map[string]*proto.EntryId{},
 		fences: map[string]map[int64]*fenceInfo{}, streamTerm: map[string]int64{}, streamShard: map[string]int64{},
 		tagTerm: map[string]int64{}, checkedLeaders: map[string]bool{}}
@@ -128,6 +129,13 @@ func (m *monitors) tap(t *TapMsg) {
 			return
 		}
 		m.ntReq[t.CallID] = req
+		// the node's term right before it handles this request
+		m.ntPreTerm[t.CallID] = -2
+		if sn := m.c.w.Node(t.Dst); sn != nil && !sn.EP.Dead() && sn.Server != nil {
+			if v, ok := sn.Server.SimShardView(req.Shard); ok {
+				m.ntPreTerm[t.CallID] = v.Term
+			}
+		}
 		if t.Src == "coord" {
 			// (a) the coordinator never issues a term it has not first made durable
 			if st, ok := m.storedTerm[req.Shard]; !ok || req.Term > st {
@@ -251,6 +259,13 @@ func (m *monitors) tapSent(t *TapMsg) {
 		}
 		v, ok := sn.Server.SimShardView(req.Shard)
 		if !ok || v.Wal == nil {
+			return
+		}
+		if prev, ok := m.ntPreTerm[t.CallID]; ok && prev >= req.Term {
+			// a repeated NewTerm for the term the node is already in (coordinator retry): the
+			// node is not being fenced away from an older term, and appends of that same term
+			// that were already queued on the stream may legitimately follow
+			m.c.r.Count("fence_same_term_repeats", 1)
 			return
 		}
 		end := wal.SimLastAppended(v.Wal)
